@@ -197,7 +197,7 @@ def _single_case(kind, skind, svars, mvars, od, ndata, with_param, rot, cfg, res
     elif kind == "adaptive_w":
         cond = Cn.AdaptiveWeightsCondition(model, smp, residual, data_functions=dfun, parameter=parameter)
         with torch.no_grad():
-            cond.adaptive_layer.weight.copy_(torch.linspace(0.5, 1.5, len(cond.adaptive_layer.weight)))
+            cond.adaptive_layer.weight.copy_(torch.linspace(0.5, 2.0, len(cond.adaptive_layer.weight)))   # mean != 1: a normalised weighted mean differs from mean(w*err)
     else:
         cond = Cn.HPM_EquationLoss_at_Sampler(None, smp, residual, data_functions=dfun, parameter=parameter)
     log_before = len(log)      # construction may sample (static samplers pre-evaluate data functions)
@@ -254,7 +254,7 @@ def _single_case(kind, skind, svars, mvars, od, ndata, with_param, rot, cfg, res
         elif kind == "custom":
             exp = rv.abs().sum(dim=1).max()
         else:
-            w = torch.linspace(0.5, 1.5, n).double()
+            w = torch.linspace(0.5, 2.0, n).double()
             exp = (w * (rv ** 2).sum(dim=1)).mean()
         if abs(float(loss) - float(exp)) > 1e-5 * max(1.0, abs(float(exp))):
             viol("C04|loss-mismatch|%s|%s" % (kind, skind), "%s call %d: loss %.8g, documented reduction of the recorded residual %.8g" % (cfg, call, float(loss), float(exp)))
@@ -432,46 +432,60 @@ def fam_periodic(item, res, viol, calls):
 def fam_integro(item, res, viol, calls):
     Cn, S = tp.conditions, tp.samplers
     for mvars in (["t", "x"], ["x", "t"]):
-        for od in (1, 2):
-            cfg = "integro|model_space=%s|out=%d" % (mvars, od)
-            res["states"].append(cfg)
-            rec, log, logi = [], [], []
+        for wg in (False, True):     # wg: the residual also differentiates u_integral with respect to the integral points
+          for od in (1, 2):
+              cfg = "integro|model_space=%s|out=%d%s" % (mvars, od, "|d/dx_integral" if wg else "")
+              res["states"].append(cfg)
+              rec, log, logi = [], [], []
 
-            def residual(u, u_integral, t, x, x_integral, f):
-                rec.append({"u": u, "u_integral": u_integral, "t": t, "x": x, "x_integral": x_integral, "f": f})
-                return u - u_integral.mean(dim=1, keepdim=True) + 0.1 * f
-            torch.manual_seed(4)
-            model = tp.models.FCN(Space({v: DIM[v] for v in mvars}), Space({"u": od}), hidden=(4,))
-            smp = record_sampler(S.GridSampler(domain_of("t"), 3) * S.GridSampler(domain_of("x"), 2), log)
-            ismp = record_sampler(S.GridSampler(domain_of("x"), 5), logi)
-            try:
-                cond = Cn.IntegroPINNCondition(model, smp, residual, ismp, data_functions={"f": lambda t: 2.0 * t})
-                loss = float(cond())
-            except Exception as e:
-                viol("C04|error|%s|integro" % type(e).__name__, "%s raised %s: %s" % (cfg, type(e).__name__, str(e)[:100]))
-                continue
-            res["evals"] += 1
-            res["transitions"] += 1
-            r = rec[-1]
-            P, Pi = log[-1], logi[-1]
-            n, m = len(P), len(Pi)
-            pc = P.coordinates
-            ok = torch.equal(r["t"].detach().reshape(n, 1), pc["t"]) and torch.equal(r["x"].detach().reshape(n, 2), pc["x"]) and \
-                torch.equal(r["x_integral"].detach().reshape(m, 2), Pi.coordinates["x"])
-            with torch.no_grad():
-                u = model(P[..., mvars] if False else Points.from_coordinates({v: pc[v] for v in mvars})).as_tensor
-                ui = torch.stack([model(Points.from_coordinates({"t": pc["t"][i:i + 1].repeat(m, 1), "x": Pi.coordinates["x"]})[..., mvars]).as_tensor for i in range(n)])
-            ok = ok and r["u"].shape == (n, 1, od) and torch.allclose(r["u"].detach().reshape(n, od), u, atol=1e-6)
-            ok = ok and r["u_integral"].shape == (n, m, od) and torch.allclose(r["u_integral"].detach(), ui, atol=1e-6)
-            ok = ok and torch.allclose(r["f"].detach().reshape(n, 1), 2.0 * pc["t"])
-            rv = (u.reshape(n, 1, od) - ui.mean(dim=1, keepdim=True) + 0.1 * (2.0 * pc["t"]).reshape(n, 1, 1)).double()
-            exp = float((rv ** 2).sum(dim=-1).mean())      # mean over points of the squared residual summed over components
-            if not ok:
-                viol("C04|integro-arguments", "%s: residual arguments are not (x, x_integral, u(x), u(x with integral points)) of the sampled rows" % cfg)
-            elif abs(loss - exp) > 1e-5 * max(1, abs(exp)):
-                viol("C04|loss-mismatch|integro", "%s: loss %.8g, expected %.8g" % (cfg, loss, exp))
-            else:
-                res["outcomes"].append(cfg)
+              def residual(u, u_integral, t, x, x_integral, f):
+                  rec.append({"u": u, "u_integral": u_integral, "t": t, "x": x, "x_integral": x_integral, "f": f})
+                  if wg:
+                      gi = tp.utils.grad(u_integral, x_integral)
+                      rec[-1]["gi"] = gi.detach().clone()
+                      return u - u_integral.mean(dim=1, keepdim=True) + 0.1 * f + 0.05 * gi.sum()
+                  return u - u_integral.mean(dim=1, keepdim=True) + 0.1 * f
+              torch.manual_seed(4)
+              model = tp.models.FCN(Space({v: DIM[v] for v in mvars}), Space({"u": od}), hidden=(4,))
+              smp = record_sampler(S.GridSampler(domain_of("t"), 3) * S.GridSampler(domain_of("x"), 2), log)
+              ismp = record_sampler(S.GridSampler(domain_of("x"), 5), logi)
+              try:
+                  cond = Cn.IntegroPINNCondition(model, smp, residual, ismp, data_functions={"f": lambda t: 2.0 * t})
+                  loss = float(cond())
+              except Exception as e:
+                  viol("C04|error|%s|integro" % type(e).__name__, "%s raised %s: %s" % (cfg, type(e).__name__, str(e)[:100]))
+                  continue
+              res["evals"] += 1
+              res["transitions"] += 1
+              r = rec[-1]
+              P, Pi = log[-1], logi[-1]
+              n, m = len(P), len(Pi)
+              pc = P.coordinates
+              ok = torch.equal(r["t"].detach().reshape(n, 1), pc["t"]) and torch.equal(r["x"].detach().reshape(n, 2), pc["x"]) and \
+                  torch.equal(r["x_integral"].detach().reshape(m, 2), Pi.coordinates["x"])
+              with torch.no_grad():
+                  u = model(P[..., mvars] if False else Points.from_coordinates({v: pc[v] for v in mvars})).as_tensor
+                  ui = torch.stack([model(Points.from_coordinates({"t": pc["t"][i:i + 1].repeat(m, 1), "x": Pi.coordinates["x"]})[..., mvars]).as_tensor for i in range(n)])
+              ok = ok and r["u"].shape == (n, 1, od) and torch.allclose(r["u"].detach().reshape(n, od), u, atol=1e-6)
+              ok = ok and r["u_integral"].shape == (n, m, od) and torch.allclose(r["u_integral"].detach(), ui, atol=1e-6)
+              ok = ok and torch.allclose(r["f"].detach().reshape(n, 1), 2.0 * pc["t"])
+              rv = (u.reshape(n, 1, od) - ui.mean(dim=1, keepdim=True) + 0.1 * (2.0 * pc["t"]).reshape(n, 1, 1)).double()
+              if wg:
+                  xq = Pi.coordinates["x"].detach().clone().requires_grad_(True)
+                  tot = sum(model(Points.from_coordinates({"t": pc["t"][i:i + 1].detach().repeat(m, 1), "x": xq})[..., mvars]).as_tensor.sum() for i in range(n))
+                  gref = torch.autograd.grad(tot, xq)[0]
+                  if tuple(r["gi"].reshape(-1, 2).shape) != (m, 2) or not torch.allclose(r["gi"].reshape(m, 2), gref, rtol=1e-4, atol=1e-6):
+                      viol("C04|integro-derivative", "%s: grad(u_integral, x_integral) inside the residual is %s, the derivative of the model at the integral points is %s" % (
+                          cfg, r["gi"].reshape(-1, 2)[:2].tolist(), gref[:2].tolist()))
+                      continue
+                  rv = rv + 0.05 * float(gref.sum())
+              exp = float((rv ** 2).sum(dim=-1).mean())      # mean over points of the squared residual summed over components
+              if not ok:
+                  viol("C04|integro-arguments", "%s: residual arguments are not (x, x_integral, u(x), u(x with integral points)) of the sampled rows" % cfg)
+              elif abs(loss - exp) > 1e-5 * max(1, abs(exp)):
+                  viol("C04|loss-mismatch|integro", "%s: loss %.8g, expected %.8g" % (cfg, loss, exp))
+              else:
+                  res["outcomes"].append(cfg)
 
 
 def _deeponet(din, od, fvar="t"):
